@@ -396,8 +396,10 @@ func (stub *stub) Start(ctx context.Context) (retErr error) {
 		return fmt.Errorf("failed to multiplex ttrpc client connection: %w", err)
 	}
 
+	lostC := make(chan struct{})
 	clientOpts := []ttrpc.ClientOpts{
 		ttrpc.WithOnClose(func() {
+			close(lostC)
 			stub.connClosed()
 		}),
 	}
@@ -429,7 +431,13 @@ func (stub *stub) Start(ctx context.Context) (retErr error) {
 		return err
 	}
 
-	if err = <-stub.cfgErrC; err != nil {
+	// wait for the runtime to configure us, but not beyond the life of the connection
+	select {
+	case err = <-stub.cfgErrC:
+	case <-lostC:
+		err = fmt.Errorf("connection to NRI/Runtime lost before the plugin got configured")
+	}
+	if err != nil {
 		return err
 	}
 
